@@ -6,7 +6,7 @@ cd /verif
 ids=${@:-$(ls seeded | grep -E '^C[0-9]+-m[0-9]+$')}
 for id in $ids; do
 	prop=${id%%-*}
-	out=$(LINES_OUT=40 tools/try_mutant.sh seeded/$id/patch.diff $prop $TIER 2>&1)
+	out=$(CACHE=1 LINES_OUT=40 tools/try_mutant.sh seeded/$id/patch.diff $prop $TIER 2>&1)
 	rc=$(echo "$out" | sed -n 's/^check exit code: //p')
 	msg=$(echo "$out" | grep -m1 -A1 "^VIOLATION" | tail -1 | cut -c1-160)
 	echo "$id $TIER exit=$rc $msg"
